@@ -11,6 +11,7 @@ import DrummerVerif.Lemmas.C01T
 import DrummerVerif.Lemmas.Quiet
 import DrummerVerif.Lemmas.C01H
 import DrummerVerif.Lemmas.C01E
+import DrummerVerif.Lemmas.C01P
 /-!
 # C01 — self-healing: the control loop restores every shard after faults stop (PARTIAL: safety invariants and per-round progress lemmas; the convergence bound is decided by the correspondence run, see DESIGN.md)
 
@@ -537,6 +538,18 @@ theorem crashed_member_is_healed_again :
                                         Loop.report (Loop.execute l2 m.address) m.address lost = Outcome.ok (l4, k4) →
                                           Loop.Settled l4 ∧ Loop.AllRunning l4 :=
   @_root_.Drummer.crashed_member_is_healed_again
+
+/-- where "Drummer holds the NodeHost's log record" comes from: the first report of a NodeHost after it came back (and every
+third one) announces its persisted logs; afterwards the replicated state has a record under the NodeHost's address,
+stamped with the current time, that lists the log of every replica the NodeHost holds data for (replica ids below 10^12,
+the range on which the model's canonical order of the announced list is defined) -/
+theorem first_report_records_the_logs :
+    ∀ (l l' : Loop) (a : Addr) (lost : Bool) (n : Nat) (h0 : Host), Loop.host? l a = some h0 →
+      (h0.reportCount = 0 ∨ (h0.reportCount + 1) % 3 = 0) →
+        ∀ (s rid : Nat) (ap : Int), ((s, rid), ap) ∈ h0.data → rid < 1000000000000 →
+          Loop.report l a lost = Outcome.ok (l', n) →
+            ∃ spec, hostFind? l'.db.hosts a = some spec ∧ spec.tick = l.db.tick ∧ HostSpec.hasLog spec s rid = true :=
+  @_root_.Drummer.first_report_records_the_logs
 
 end C01
 end Drummer
